@@ -245,7 +245,7 @@ func randEncoderOptions(r *RNG) *webp.EncoderOptions {
 
 // suiteConform: C02 — every successful Encode emits a conformant, self-describing file.
 func suiteConform(rep *Report) error {
-	rep.Rule = "Encode over image class x alpha class (incl. sparse: 1..3 non-opaque pixels at raster index 0, 1 or among the last 8) x size x {lossy,lossless} x Quality x Method x presets x Segments x Partitions x Pass x filter settings x SNS x QMin/QMax x TargetSize/TargetPSNR x sharp YUV x dithering x Exact x alpha settings x metadata subsets, plus deterministic legs: pictures with exactly n colours for n around 2 / 4 / 16 / 192 / 256, metadata blobs whose length sits around 8 / 1024 / 4096 / 65536 bytes, lossy noise pictures bracketing 32768 coefficient tokens with 2 / 4 / 8 token partitions; pictures on the numeric thresholds of the code (thresholds.go) and widths 1023..4097 x heights 1..4 with flat/gradient/sparse content; one non-opaque pixel at index 0 / 1 / each of the last 8 positions over sizes with pixel count mod 4 = 0..3, and two-colour pictures whose packed bytes leave runs of unused symbols of lengths around 2/3, 10/11, 138/139/140 and 130..145 in the code-length vector; each output: independent structural walk (sizes, padding, chunk order, VP8X flags <=> chunks, canvas = image size, alpha flag vs source), Lean RIFF walker (when the driver has riffwf), accepted by webp.Decode with the source's size, and decoded by the independent Lean decoders (VP8L always; VP8 when the driver has vp8) to the same pixels/samples as the Go decoder; non-trivial = image not flat"
+	rep.Rule = "Encode over image class x alpha class (incl. sparse: 1..3 non-opaque pixels at raster index 0, 1 or among the last 8) x size x {lossy,lossless} x Quality x Method x presets x Segments x Partitions x Pass x filter settings x SNS x QMin/QMax x TargetSize/TargetPSNR x sharp YUV x dithering x Exact x alpha settings x metadata subsets, plus deterministic legs: pictures with exactly n colours for n around 2 / 4 / 16 / 192 / 256, metadata blobs whose length sits around 8 / 1024 / 4096 / 65536 bytes, lossy noise pictures bracketing 32768 coefficient tokens with 2 / 4 / 8 token partitions; pictures on the numeric thresholds of the code (thresholds.go) and widths 1023..4097 x heights 1..4 with flat/gradient/sparse content; one non-opaque pixel at index 0 / 1 / each of the last 8 positions over sizes with pixel count mod 4 = 0..3, and two-colour pictures whose packed bytes leave runs of unused symbols of lengths around 2/3, 10/11, 138/139/140 and 130..145 in the code-length vector, and banded pictures (dark-noise / flat / smooth / four-colour rows above one bright-noise last tile row; entropy image 3, 7 or 11 tile rows tall at histogram bits 2..5, Method 2..6, lossless Quality 10/50/75, decoded = source); each output: independent structural walk (sizes, padding, chunk order, VP8X flags <=> chunks, canvas = image size, alpha flag vs source), Lean RIFF walker (when the driver has riffwf), accepted by webp.Decode with the source's size, and decoded by the independent Lean decoders (VP8L always; VP8 when the driver has vp8) to the same pixels/samples as the Go decoder; non-trivial = image not flat"
 	n := 330
 	if rep.Tier == "thorough" {
 		n = 8000
@@ -306,7 +306,15 @@ func suiteConform(rep *Report) error {
 		tokCases = []TokenCase{tokCases[k], tokCases[(k+2)%len(tokCases)]}
 	}
 	nCount := len(colCases) + len(blobCases) + len(tokCases)
-	for i := 0; i < n+nSparse+nZero+nThr+nCount; i++ {
+	// banded leg: lossless pictures made of horizontal bands whose entropy image (tile = 2^histogramBits pixels,
+	// histogramBits = 7 - Method, 9 - Method in palette mode, clamped to 2..9) is 3, 7 or 11 tile rows tall: the rows
+	// above the last are statistically alike (dark noise / flat / smooth / a few colours), the last tile row is noisy
+	// in another value range - the entropy image collapses row-wise except for its last row
+	nBand := 10
+	if rep.Tier == "thorough" {
+		nBand = 240
+	}
+	for i := 0; i < n+nSparse+nZero+nThr+nCount+nBand; i++ {
 		r := NewRNG(rep.Seed, uint64(i))
 		sz := sizes[r.Intn(len(sizes))]
 		if i%83 == 0 && i < n+nSparse+nZero+nThr {
@@ -317,7 +325,17 @@ func suiteConform(rep *Report) error {
 		var img *image.NRGBA
 		idesc := ""
 		leg := "random"
+		bandMethod := -1
 		switch {
+		case i >= n+nSparse+nZero+nThr+nCount:
+			k := i - (n + nSparse + nZero + nThr + nCount)
+			var what string
+			img, bandMethod, what = conformBandedImage(r, k)
+			sz = [2]int{img.Rect.Dx(), img.Rect.Dy()}
+			cls, acls = ClsNoise, AlphaNone
+			idesc = fmt.Sprintf("%dx%d/%s", sz[0], sz[1], what)
+			leg = "banded"
+			rep.Count("banded:" + strings.SplitN(what, " ", 2)[0])
 		case i >= n+nSparse+nZero+nThr:
 			k := i - (n + nSparse + nZero + nThr)
 			switch {
@@ -391,6 +409,14 @@ func suiteConform(rep *Report) error {
 			o.ICC, o.EXIF, o.XMP = nil, nil, nil
 		}
 		switch leg {
+		case "banded":
+			o.Lossless = true
+			o.Method = bandMethod
+			o.Quality = float32([]int{10, 50, 75}[r.Intn(3)])
+			o.TargetSize, o.TargetPSNR = 0, 0
+			if len(o.ICC) > 200 {
+				o.ICC = o.ICC[:9]
+			}
 		case "colors":
 			// the colour-count thresholds belong to the lossless encoder (palette, index packing)
 			o.Lossless = i%4 != 3
@@ -455,6 +481,9 @@ func suiteConform(rep *Report) error {
 		}
 		if dec.Bounds().Dx() != sz[0] || dec.Bounds().Dy() != sz[1] {
 			add("conform:decoded-size", fmt.Sprint(dec.Bounds()))
+		} else if leg == "banded" && !bytes.Equal(toNRGBA(dec).Pix, img.Pix) {
+			// (opaque source, lossless: the decoded picture is the source)
+			add("conform:lossless-differs-from-source", "opaque picture encoded lossless does not decode to the source pixels")
 		}
 		ft, ferr := webp.GetFeatures(bytes.NewReader(file))
 		if ferr != nil || ft.Width != sz[0] || ft.Height != sz[1] {
@@ -528,6 +557,76 @@ func suiteConform(rep *Report) error {
 		rep.Notes = append(rep.Notes, "driver has no vp8 op yet: lossy payloads validated by the package's own decoder and the structural walker only")
 	}
 	return nil
+}
+
+// conformBandedImage: an opaque picture of horizontal bands for the lossless encoder at the returned Method. The
+// entropy image has 3, 7 or 11 tile rows (tile = 2^clamp(7-Method, 2, 9) pixels; kind "few" counts with the
+// palette-mode tile 2^clamp(9-Method, 2, 9)); the picture is 2..8 tiles wide, its last tile row may be partial.
+// Rows above the last tile row: dark noise / one flat colour / a smooth horizontal ramp / 4 colours; last tile
+// row: bright noise (kind "few": 12 other colours).
+func conformBandedImage(r *RNG, k int) (*image.NRGBA, int, string) {
+	kind := []string{"noise", "noise", "noise", "flat", "noise", "few", "noise", "smooth", "noise", "few"}[k%10]
+	method := []int{4, 5, 6, 3, 4, 5, 6, 4, 2, 6}[(k+r.Intn(3))%10]
+	bits := 7 - method
+	if kind == "few" {
+		bits = 9 - method
+	}
+	if bits < 2 {
+		bits = 2
+	}
+	for bits > 5 { // keep the pictures small: tiles of at most 32 pixels
+		method++
+		bits--
+	}
+	tile := 1 << uint(bits)
+	rows := []int{3, 7, 11}[(k/2+r.Intn(2))%3]
+	if tile == 32 && rows == 11 {
+		rows = 7
+	}
+	wt := 2 + r.Intn(7)
+	for wt > 2 && wt*tile*rows*tile > 24000 {
+		wt--
+	}
+	w, h := wt*tile, rows*tile
+	if r.Chance(1, 3) {
+		h -= r.Intn(tile) // partial last tile row
+	}
+	if r.Chance(1, 4) && w > tile {
+		w -= r.Intn(tile)
+	}
+	img := image.NewNRGBA(image.Rect(0, 0, w, h))
+	var pal [16][3]byte
+	for i := range pal {
+		pal[i] = [3]byte{byte(r.Next()), byte(r.Next()), byte(r.Next())}
+	}
+	flat := [3]byte{byte(r.Next()), byte(r.Next()), byte(r.Next())}
+	lo, span := 16, 16
+	if r.Bool() {
+		lo, span = 0, 8+r.Intn(24)
+	}
+	top := (rows - 1) * tile
+	for y := 0; y < h; y++ {
+		for x := 0; x < w; x++ {
+			o := img.PixOffset(x, y)
+			var c [3]byte
+			switch {
+			case y >= top && kind == "few":
+				c = pal[4+r.Intn(12)]
+			case y >= top:
+				c = [3]byte{byte(128 + r.Intn(100)), byte(128 + r.Intn(100)), byte(128 + r.Intn(100))}
+			case kind == "noise":
+				c = [3]byte{byte(lo + r.Intn(span)), byte(lo + r.Intn(span)), byte(lo + r.Intn(span))}
+			case kind == "flat":
+				c = flat
+			case kind == "smooth":
+				c = [3]byte{byte(x * 100 / w), byte(20 + x*60/w), flat[2] & 63}
+			default:
+				c = pal[r.Intn(4)]
+			}
+			img.Pix[o], img.Pix[o+1], img.Pix[o+2], img.Pix[o+3] = c[0], c[1], c[2], 255
+		}
+	}
+	return img, method, fmt.Sprintf("%s banded: %d tile rows of %d px (histogram bits %d), last row noisy", kind, rows, tile, bits)
 }
 
 // metaAnimCase: one animation-encoder run with a random metadata setter sequence (see suiteMeta).
